@@ -133,3 +133,18 @@ Definition clients_ok (c : shared_cfg) (instances distinct : nat) : bool :=
   if sc_enabled c
   then Nat.leb distinct (Nat.max 1 (Z.to_nat (sc_number c)))
   else Nat.eqb distinct instances.
+
+(* ---- scripted histories (case kind `hist` of the correspondence run: the real guns + transports are driven event by
+   event and compared with t_run exactly).  max-idle-conns-per-host as net/http reads it: 0 = DefaultMaxIdleConnsPerHost (2) *)
+Definition eff_max_idle (cfg : Z) : nat := if (cfg =? 0)%Z then 2%nat else Z.to_nat cfg.
+
+(* every two requests of one instance went over the same connection *)
+Definition log_one_conn (l : list (nat * nat)) : bool :=
+  forallb (fun p => forallb (fun q => negb (Nat.eqb (fst p) (fst q)) || Nat.eqb (snd p) (snd q)) l) l.
+
+(* judge of a scripted history: connection count, every request logged once, and (keep-alives on, per-instance clients)
+   one connection per instance *)
+Definition hist_ok (keepalive shared : bool) (instances requests dials : nat) (log : list (nat * nat)) : bool :=
+  conn_ok keepalive shared instances requests dials
+  && Nat.eqb (length log) requests
+  && (if keepalive && negb shared then log_one_conn log else true).
